@@ -14,4 +14,5 @@ func init() {
 	mut("C09", "frame-size-setting-ignored", "h2/relay.go", "\t\t\t\tcase http2.SettingMaxFrameSize:\n\t\t\t\t\tr.peer.updateMaxFrameSize(s.Val)\n", "", "C09.R4", "applied to the peer")
 	twin("C09", "guard-inverted-form", "h2/relay.go", "\t\tif f.flowControlSize() > *connectionWindowSize || f.flowControlSize() > w.windowSize {\n\t\t\tbreak\n\t\t}\n", "\t\tif !(f.flowControlSize() <= *connectionWindowSize && w.windowSize >= f.flowControlSize()) {\n\t\t\tbreak\n\t\t}\n")
 	mut("C09", "rst-deletes-output-buffer", "h2/relay.go", "func (r *relay) rstStream(id uint32, errCode http2.ErrCode) {\n", "func (r *relay) rstStream(id uint32, errCode http2.ErrCode) {\n\tr.flowMu.Lock()\n\tdelete(r.outputBuffers, id)\n\tr.flowMu.Unlock()\n", "C09.R4", "outputBuffers")
+	mut("C09", "window-comparison-excludes-equality", "h2/relay.go", "f.flowControlSize() > *connectionWindowSize ||", "f.flowControlSize() >= *connectionWindowSize ||", "C09.R2", "exactly fills")
 }
